@@ -3,6 +3,7 @@ package graphql
 import (
 	"fmt"
 	"hash/fnv"
+	"reflect"
 	"strconv"
 
 	"github.com/graphql-go/graphql/language/ast"
@@ -461,6 +462,13 @@ func (c *normCtx) tryExtract(value ast.Value, expected Input) (ast.Value, bool) 
 		// (typically a type mismatch the validator should have caught
 		// earlier). Don't extract; let the executor surface the
 		// downstream error against the original literal.
+		return value, false
+	}
+	// The synthetic variable goes through variable coercion again at
+	// execute time. Only extract when that is the identity on the value
+	// (not so for enums and custom scalars, whose internal values are
+	// not valid variable inputs).
+	if ok, _ := isValidInputValue(coerced, expected); !ok || !reflect.DeepEqual(coerceValue(expected, coerced), coerced) {
 		return value, false
 	}
 	name := c.nextName()
